@@ -76,15 +76,24 @@ where
             // Write the whole program next to the target and rename it into place, so that
             // FILE is either the complete program or untouched (a short or failed write must
             // not leave a truncated file behind or be reported as success).
-            let mut tmp = s.as_os_str().to_owned();
-            tmp.push(".tmp");
-            let tmp = PathBuf::from(tmp);
-            let written = File::create(&tmp)
-                .and_then(|mut file| file.write_all(&buf))
-                .and_then(|_| std::fs::rename(&tmp, s));
-            if let Err(e) = written {
-                let _ = std::fs::remove_file(&tmp);
-                return Err(vec![Error::IOError(Rc::new(e))]);
+            // Something that exists and is not a regular file (/dev/null, a pipe) is written to
+            // directly: renaming over it would replace it.
+            let special = std::fs::metadata(s).map(|m| !m.is_file()).unwrap_or(false);
+            if special {
+                File::create(s)
+                    .and_then(|mut file| file.write_all(&buf))
+                    .map_err(|e| vec![Error::IOError(Rc::new(e))])?;
+            } else {
+                let mut tmp = s.as_os_str().to_owned();
+                tmp.push(".tmp");
+                let tmp = PathBuf::from(tmp);
+                let written = File::create(&tmp)
+                    .and_then(|mut file| file.write_all(&buf))
+                    .and_then(|_| std::fs::rename(&tmp, s));
+                if let Err(e) = written {
+                    let _ = std::fs::remove_file(&tmp);
+                    return Err(vec![Error::IOError(Rc::new(e))]);
+                }
             }
         }
     };
